@@ -275,7 +275,8 @@ def for_loop(I: Interp, st: Any, fr: Frame) -> None:
     seq: VList | None = None
     if isinstance(it, VList) and it.items is None:
         n = simp(it.n)
-        if not z3.is_int_value(n):
+        if not z3.is_int_value(n) and I.concrete_value(n) is None and \
+                not I.entails(z3.And(n >= 0, n <= 4)):
             seq = it
     if seq is None:
         items = I.iterate(it)
